@@ -4,9 +4,9 @@ CONSTANTS
   Waiters = {w1}
   None = none
   RunP = run
-  MaxSeq = 3
+  MaxSeq = 2
   Steps = {1}
-  Wants = {2, 4}
+  Wants = {1, 3}
   Timeouts = {1}
   UpdCap = 1
   MaxTime = 2
